@@ -36,6 +36,9 @@ class Check(PropertyCheck):
 
     def generate(self, rng, n, tier):
         for i in range(n):
+            if i % 30 == 21:
+                yield Scenario(["new", f"mark staleobs {rng.randint(0, 10**6)}"], {"family": "staleobs", "accepted": 3, "kind": "solve", "ops": 6})
+                continue
             if i % 30 == 11:
                 yield Scenario(["new", f"mark presolve {rng.randint(0, 10**6)}"], {"family": "presolve", "accepted": 3, "kind": "solve", "ops": 6})
                 continue
@@ -244,6 +247,36 @@ class Check(PropertyCheck):
                          f"{base + 1} > {base}), the observer-based rule selects operation {b.operation_id} (both are {float(base)} in float32: "
                          f"the first one wins)")]
             return []
+        if line.startswith("mark staleobs"):
+            # the observers an observer-based rule created are unsubscribed by the caller (they are the caller's dispatcher's observers);
+            # a NEW scorer used later on the same dispatcher gets observers that are notified - its choice is the direct rule's
+            import jsl as _jsl
+            from impl import build_instance
+            from job_shop_lib.dispatching.rules import (most_work_remaining_rule, observer_based_most_work_remaining_rule,
+                                                        MostWorkRemainingScorer, score_based_rule)
+            from job_shop_lib.dispatching.feature_observers import DurationObserver, IsReadyObserver
+            r = random.Random(int(line.split()[2]))
+            _, jobs_ = gen.gen_instance(r, r.choice(["classic", "irregular", "recirc"]), max_jobs=4, max_machines=3, max_ops=3)
+            jobs_ = [[(ms, max(1, dd)) for ms, dd in job] for job in jobs_]
+            inst_ = build_instance(jobs_)
+            d_ = _jsl.Dispatcher(inst_)
+            first = observer_based_most_work_remaining_rule(d_)
+            d_.dispatch(first, first.machines[0])
+            for sub in list(d_.subscribers):
+                if isinstance(sub, (DurationObserver, IsReadyObserver)):
+                    d_.unsubscribe(sub)
+            out_ = []
+            while not d_.schedule.is_complete():
+                want = most_work_remaining_rule(d_)
+                got = score_based_rule(MostWorkRemainingScorer())(d_)
+                if got.operation_id != want.operation_id:
+                    # (ties are broken the same way by both: the first available operation with the best score)
+                    out_.append(("mwkr-disagree", f"a fresh observer-based most-work-remaining scorer on a dispatcher whose earlier scorer's "
+                                 f"observers were unsubscribed selects operation {got.operation_id}, the direct rule operation "
+                                 f"{want.operation_id} (instance {jobs_}, {d_.schedule.num_scheduled_operations} operations scheduled)"))
+                    break
+                d_.dispatch(want, want.machines[0])
+            return out_
         if line.startswith("mark presolve"):
             # the documented second argument: `solve(instance, dispatcher)` on a dispatcher the caller prepared - fresh, or already
             # some steps into an episode (operations still running): the solver finishes THAT episode
